@@ -1831,3 +1831,253 @@ let rec has_dup_keys fuel v =
              (has_dup_keys f x)) (go r)
        in go ms
      | _ -> false)
+
+(** val skip_elems : nat -> nat -> coq_N list -> (nat * coq_N list) option **)
+
+let rec skip_elems i pos l =
+  match i with
+  | O -> Some (pos, l)
+  | S j ->
+    (match pvalue false (fuel_for l) pos l with
+     | Some p ->
+       let (p0, rest) = p in
+       let (_, b) = p0 in
+       let r1 = ws rest in
+       (match r1 with
+        | [] -> None
+        | n :: r2 ->
+          (match n with
+           | N0 -> None
+           | Npos p1 ->
+             (match p1 with
+              | Coq_xO p2 ->
+                (match p2 with
+                 | Coq_xO p3 ->
+                   (match p3 with
+                    | Coq_xI p4 ->
+                      (match p4 with
+                       | Coq_xI p5 ->
+                         (match p5 with
+                          | Coq_xO p6 ->
+                            (match p6 with
+                             | Coq_xH ->
+                               skip_elems j (S
+                                 (add b (sub (length rest) (length r1)))) r2
+                             | _ -> None)
+                          | _ -> None)
+                       | _ -> None)
+                    | _ -> None)
+                 | _ -> None)
+              | _ -> None)))
+     | None -> None)
+
+(** val find_member :
+    nat -> coq_N list -> nat -> coq_N list -> (nat * coq_N list) option **)
+
+let rec find_member fuel k pos l =
+  match fuel with
+  | O -> None
+  | S f ->
+    let l1 = ws l in
+    let p1 = add pos (sub (length l) (length l1)) in
+    (match l1 with
+     | [] -> None
+     | n :: r ->
+       (match n with
+        | N0 -> None
+        | Npos p ->
+          (match p with
+           | Coq_xO p0 ->
+             (match p0 with
+              | Coq_xI p2 ->
+                (match p2 with
+                 | Coq_xO p3 ->
+                   (match p3 with
+                    | Coq_xO p4 ->
+                      (match p4 with
+                       | Coq_xO p5 ->
+                         (match p5 with
+                          | Coq_xH ->
+                            (match str_body true (S (length r)) r with
+                             | Some p6 ->
+                               let (p7, rest) = p6 in
+                               let (key, _) = p7 in
+                               let pk = add p1 (sub (length l1) (length rest))
+                               in
+                               let r1 = ws rest in
+                               let pc = add pk (sub (length rest) (length r1))
+                               in
+                               (match r1 with
+                                | [] -> None
+                                | n0 :: r2 ->
+                                  (match n0 with
+                                   | N0 -> None
+                                   | Npos p8 ->
+                                     (match p8 with
+                                      | Coq_xO p9 ->
+                                        (match p9 with
+                                         | Coq_xI p10 ->
+                                           (match p10 with
+                                            | Coq_xO p11 ->
+                                              (match p11 with
+                                               | Coq_xI p12 ->
+                                                 (match p12 with
+                                                  | Coq_xI p13 ->
+                                                    (match p13 with
+                                                     | Coq_xH ->
+                                                       if bytes_eqb key k
+                                                       then Some ((S pc), r2)
+                                                       else (match pvalue
+                                                                    false
+                                                                    (fuel_for
+                                                                    r2) (S
+                                                                    pc) r2 with
+                                                             | Some p14 ->
+                                                               let (p15, r3) =
+                                                                 p14
+                                                               in
+                                                               let (_, b) =
+                                                                 p15
+                                                               in
+                                                               let r4 = ws r3
+                                                               in
+                                                               (match r4 with
+                                                                | [] -> None
+                                                                | n1 :: r5 ->
+                                                                  (match n1 with
+                                                                   | N0 ->
+                                                                    None
+                                                                   | Npos p16 ->
+                                                                    (match p16 with
+                                                                    | Coq_xO p17 ->
+                                                                    (match p17 with
+                                                                    | Coq_xO p18 ->
+                                                                    (match p18 with
+                                                                    | Coq_xI p19 ->
+                                                                    (match p19 with
+                                                                    | Coq_xI p20 ->
+                                                                    (match p20 with
+                                                                    | Coq_xO p21 ->
+                                                                    (match p21 with
+                                                                    | Coq_xH ->
+                                                                    find_member
+                                                                    f k (S
+                                                                    (add b
+                                                                    (sub
+                                                                    (length
+                                                                    r3)
+                                                                    (length
+                                                                    r4)))) r5
+                                                                    | _ ->
+                                                                    None)
+                                                                    | _ ->
+                                                                    None)
+                                                                    | _ ->
+                                                                    None)
+                                                                    | _ ->
+                                                                    None)
+                                                                    | _ ->
+                                                                    None)
+                                                                    | _ ->
+                                                                    None)))
+                                                             | None -> None)
+                                                     | _ -> None)
+                                                  | _ -> None)
+                                               | _ -> None)
+                                            | _ -> None)
+                                         | _ -> None)
+                                      | _ -> None)))
+                             | None -> None)
+                          | _ -> None)
+                       | _ -> None)
+                    | _ -> None)
+                 | _ -> None)
+              | _ -> None)
+           | _ -> None)))
+
+(** val ref_get_at : pelem list -> nat -> coq_N list -> (nat * nat) option **)
+
+let rec ref_get_at p pos l =
+  match p with
+  | [] ->
+    (match pvalue false (fuel_for l) pos l with
+     | Some p0 ->
+       let (p1, _) = p0 in let (p2, b) = p1 in let (_, a) = p2 in Some (a, b)
+     | None -> None)
+  | p0 :: p' ->
+    (match p0 with
+     | PKey k ->
+       let l1 = ws l in
+       let p1 = add pos (sub (length l) (length l1)) in
+       (match l1 with
+        | [] -> None
+        | n :: r ->
+          (match n with
+           | N0 -> None
+           | Npos p2 ->
+             (match p2 with
+              | Coq_xI p3 ->
+                (match p3 with
+                 | Coq_xI p4 ->
+                   (match p4 with
+                    | Coq_xO p5 ->
+                      (match p5 with
+                       | Coq_xI p6 ->
+                         (match p6 with
+                          | Coq_xI p7 ->
+                            (match p7 with
+                             | Coq_xI p8 ->
+                               (match p8 with
+                                | Coq_xH ->
+                                  (match find_member (S (length r)) k (S p1) r with
+                                   | Some p9 ->
+                                     let (p10, r2) = p9 in
+                                     ref_get_at p' p10 r2
+                                   | None -> None)
+                                | _ -> None)
+                             | _ -> None)
+                          | _ -> None)
+                       | _ -> None)
+                    | _ -> None)
+                 | _ -> None)
+              | _ -> None)))
+     | PIdx i ->
+       let l1 = ws l in
+       let p1 = add pos (sub (length l) (length l1)) in
+       (match l1 with
+        | [] -> None
+        | n :: r ->
+          (match n with
+           | N0 -> None
+           | Npos p2 ->
+             (match p2 with
+              | Coq_xI p3 ->
+                (match p3 with
+                 | Coq_xI p4 ->
+                   (match p4 with
+                    | Coq_xO p5 ->
+                      (match p5 with
+                       | Coq_xI p6 ->
+                         (match p6 with
+                          | Coq_xI p7 ->
+                            (match p7 with
+                             | Coq_xO p8 ->
+                               (match p8 with
+                                | Coq_xH ->
+                                  (match skip_elems i (S p1) r with
+                                   | Some p9 ->
+                                     let (p10, r2) = p9 in
+                                     ref_get_at p' p10 r2
+                                   | None -> None)
+                                | _ -> None)
+                             | _ -> None)
+                          | _ -> None)
+                       | _ -> None)
+                    | _ -> None)
+                 | _ -> None)
+              | _ -> None))))
+
+(** val ref_get : coq_N list -> pelem list -> (nat * nat) option **)
+
+let ref_get l p =
+  ref_get_at p O l
